@@ -286,16 +286,48 @@ theorem activeCount_le_len (s : Remote) : s.activeCount ≤ s.cdq.length := by
   omega
 
 /-- everything an accepted / limit-rejected NEW_CONNECTION_ID frame leaves behind -/
-theorem recvNewCid_spec {fixed : Bool} {s : Remote} {seq rpt : Nat} {cid : Cid}
-    (hi : RInv s) (hlen : s.cdq.length ≤ s.limit + 1) :
+theorem recvNewCid_spec {fixed : Tree} {s : Remote} {seq rpt : Nat} {cid : Cid} (hi : RInv s) :
     (∀ s', s.recvNewCid fixed seq rpt cid = .accepted s' →
-        RInv s' ∧ s'.cdq.length ≤ s'.limit + 1 ∧ s'.limit = s.limit ∧ (fixed = true → s'.activeCount ≤ s'.limit)) ∧
-    (∀ s', s.recvNewCid fixed seq rpt cid = .errLimit s' →
-        RInv s' ∧ s'.cdq.length ≤ s'.limit + 1 ∧ s'.limit = s.limit) := by
+        RInv s' ∧ s'.limit = s.limit ∧ (fixed.count = true → s'.activeCount ≤ s'.limit)) ∧
+    (∀ s', s.recvNewCid fixed seq rpt cid = .errLimit s' → RInv s' ∧ s'.limit = s.limit) := by
   unfold recvNewCid
   split
-  · exact ⟨fun s' h => (by cases h), fun s' h => by cases h; exact ⟨hi, hlen, rfl⟩⟩
+  · exact ⟨fun s' h => (by cases h), fun s' h => by cases h; exact ⟨hi, rfl⟩⟩
+  split
+  · exact ⟨fun s' h => (by cases h), fun s' h => by cases h⟩
+  rename_i hoff
+  have hs := insertCid_spec s seq cid (by omega)
+  have hi1 := rinv_insertCid s seq cid hi
+  generalize hq : s.insertCid seq cid = q at hs hi1
+  obtain ⟨s1, n1⟩ := q
+  simp only at hs hi1 ⊢
+  obtain ⟨hl1, hc1, hr1, _, _, _, hlim1⟩ := hs
+  cases hrp : s1.retirePriorTo rpt with
+  | panic site => simp only; exact ⟨fun s' h => (by cases h), fun s' h => by cases h⟩
+  | ok s2 =>
+    simp only
+    obtain ⟨hi2, _, hlim2, hcase⟩ := retirePriorTo_spec hi1 hrp
+    split
+    · exact ⟨fun s' h => (by cases h), fun s' h => by cases h; exact ⟨hi2, by omega⟩⟩
+    · rename_i hfix
+      have hk := arrange_keeps s2
+      refine ⟨fun s' h => ?_, fun s' h => by cases h⟩
+      cases h
+      refine ⟨rinv_arrange s2 hi2, by rw [hk.limit]; omega, ?_⟩
+      intro hf
+      rw [activeCount_arrange, hk.limit]
+      simpa [hf] using hfix
+
+/-- with the pre-test on the frame's two fields the table of peer ids never has more than `limit + 1` cells -/
+theorem recvNewCid_len {fixed : Tree} {s : Remote} {seq rpt : Nat} {cid : Cid} (hpre : fixed.pre = true)
+    (hi : RInv s) (hlen : s.cdq.length ≤ s.limit + 1) :
+    (∀ s', s.recvNewCid fixed seq rpt cid = .accepted s' → s'.cdq.length ≤ s'.limit + 1) ∧
+    (∀ s', s.recvNewCid fixed seq rpt cid = .errLimit s' → s'.cdq.length ≤ s'.limit + 1) := by
+  unfold recvNewCid
+  split
+  · exact ⟨fun s' h => (by cases h), fun s' h => by cases h; exact hlen⟩
   rename_i hlim
+  have hlim : ¬ seq - rpt > s.limit := by simpa [hpre] using hlim
   split
   · exact ⟨fun s' h => (by cases h), fun s' h => by cases h⟩
   rename_i hoff
@@ -315,17 +347,12 @@ theorem recvNewCid_spec {fixed : Bool} {s : Remote} {seq rpt : Nat} {cid : Cid}
       rcases hcase with ⟨h1, h2⟩ | ⟨h1, h2, h3, h4⟩
       · subst h2; omega
       · rw [h3, List.length_drop]; omega
+    have hk := arrange_keeps s2
     split
-    · exact ⟨fun s' h => (by cases h), fun s' h => by cases h; exact ⟨hi2, hlen2, by omega⟩⟩
-    · rename_i hfix
-      have hk := arrange_keeps s2
-      refine ⟨fun s' h => ?_, fun s' h => by cases h⟩
+    · exact ⟨fun s' h => (by cases h), fun s' h => by cases h; exact hlen2⟩
+    · refine ⟨fun s' h => ?_, fun s' h => by cases h⟩
       cases h
-      refine ⟨rinv_arrange s2 hi2, by rw [hk.cdq, hk.limit]; exact hlen2, by rw [hk.limit]; omega, ?_⟩
-      intro hf
-      rw [activeCount_arrange, hk.limit]
-      subst hf
-      simpa using hfix
+      rw [hk.cdq, hk.limit]; exact hlen2
 
 theorem applyInitial_ok {s s' : Remote} {cid : Cid} {c : Nat} (hi : RInv s) (h : s.applyInitial cid c = .ok s') :
     RInv s' ∧ s'.cdq.length = 1 ∧ s'.limit = s.limit := by
@@ -352,15 +379,15 @@ end Remote
 
 /-! ### histories -/
 
-structure RunInv (limit : Nat) (r : RRun) : Prop where
+structure RunInv (fixed : Remote.Tree) (limit : Nat) (r : RRun) : Prop where
   inv : Remote.RInv r.s
-  len : r.s.cdq.length ≤ r.s.limit + 1
+  len : fixed.pre = true → r.s.cdq.length ≤ r.s.limit + 1
   lim : r.s.limit = limit
 
 namespace RRun
 
-theorem runInv_step (fixed : Bool) (limit : Nat) (r : RRun) (o : ROp) (h : RunInv limit r) :
-    RunInv limit (r.step fixed o) := by
+theorem runInv_step (fixed : Remote.Tree) (limit : Nat) (r : RRun) (o : ROp) (h : RunInv fixed limit r) :
+    RunInv fixed limit (r.step fixed o) := by
   unfold step
   split
   · exact h
@@ -368,7 +395,7 @@ theorem runInv_step (fixed : Bool) (limit : Nat) (r : RRun) (o : ROp) (h : RunIn
   | apply =>
     simp only
     have hk := Remote.arrange_keeps { r.s with cells := r.s.cells ++ [Cell.fresh], pending := r.s.pending ++ [r.s.cells.length] }
-    exact ⟨Remote.rinv_apply r.s h.inv, by unfold Remote.apply; simp only; rw [hk.cdq, hk.limit]; exact h.len,
+    exact ⟨Remote.rinv_apply r.s h.inv, fun hp => by unfold Remote.apply; simp only; rw [hk.cdq, hk.limit]; exact h.len hp,
       by unfold Remote.apply; simp only; rw [hk.limit]; exact h.lim⟩
   | initial cid c =>
     simp only
@@ -376,14 +403,18 @@ theorem runInv_step (fixed : Bool) (limit : Nat) (r : RRun) (o : ROp) (h : RunIn
     | panic site => exact ⟨h.inv, h.len, h.lim⟩
     | ok s' =>
       obtain ⟨h1, h2, h3⟩ := Remote.applyInitial_ok h.inv hres
-      exact ⟨h1, by show s'.cdq.length ≤ s'.limit + 1; omega, h3.trans h.lim⟩
+      exact ⟨h1, fun _ => by show s'.cdq.length ≤ s'.limit + 1; omega, h3.trans h.lim⟩
   | newcid seq rpt cid =>
     simp only
-    have hs := Remote.recvNewCid_spec (fixed := fixed) (seq := seq) (rpt := rpt) (cid := cid) h.inv h.len
+    have hs := Remote.recvNewCid_spec (fixed := fixed) (seq := seq) (rpt := rpt) (cid := cid) h.inv
     cases hres : r.s.recvNewCid fixed seq rpt cid with
-    | errLimit s' => have := hs.2 s' hres; exact ⟨this.1, this.2.1, this.2.2.trans h.lim⟩
+    | errLimit s' =>
+      have := hs.2 s' hres
+      exact ⟨this.1, fun hp => (Remote.recvNewCid_len hp h.inv (h.len hp)).2 s' hres, this.2.trans h.lim⟩
     | discarded => exact h
-    | accepted s' => have := hs.1 s' hres; exact ⟨this.1, this.2.1, this.2.2.1.trans h.lim⟩
+    | accepted s' =>
+      have := hs.1 s' hres
+      exact ⟨this.1, fun hp => (Remote.recvNewCid_len hp h.inv (h.len hp)).1 s' hres, this.2.1.trans h.lim⟩
     | panic site => exact ⟨h.inv, h.len, h.lim⟩
   | borrow c =>
     simp only
@@ -395,21 +426,21 @@ theorem runInv_step (fixed : Bool) (limit : Nat) (r : RRun) (o : ROp) (h : RunIn
     | none => exact ⟨h.inv, h.len, h.lim⟩
     | some s' =>
       obtain ⟨h1, h2, h3⟩ := Remote.release_some h.inv hres
-      exact ⟨h1, by show s'.cdq.length ≤ s'.limit + 1; rw [h2, h3]; exact h.len, h3.trans h.lim⟩
+      exact ⟨h1, fun hp => by show s'.cdq.length ≤ s'.limit + 1; rw [h2, h3]; exact h.len hp, h3.trans h.lim⟩
   | retireCell c =>
     simp only
     unfold Remote.retireCell
     have := Remote.rinv_setCell r.s c (r.s.cell c).retire.1 h.inv (Cell.ok_retire _ (Remote.cell_ok_of_all _ h.inv.ok c))
     exact ⟨⟨this.i1, this.i2, this.ok⟩, h.len, h.lim⟩
 
-theorem runInv_foldl (fixed : Bool) (limit : Nat) (ops : List ROp) :
-    ∀ r : RRun, RunInv limit r → RunInv limit (ops.foldl (step fixed) r) := by
+theorem runInv_foldl (fixed : Remote.Tree) (limit : Nat) (ops : List ROp) :
+    ∀ r : RRun, RunInv fixed limit r → RunInv fixed limit (ops.foldl (step fixed) r) := by
   induction ops with
   | nil => intro r h; exact h
   | cons o rest ih => intro r h; exact ih _ (runInv_step fixed limit r o h)
 
-theorem runInv_run (fixed : Bool) (limit : Nat) (ops : List ROp) : RunInv limit (run fixed limit ops) :=
-  runInv_foldl fixed limit ops _ ⟨Remote.rinv_init limit, by simp [Remote.init], rfl⟩
+theorem runInv_run (fixed : Remote.Tree) (limit : Nat) (ops : List ROp) : RunInv fixed limit (run fixed limit ops) :=
+  runInv_foldl fixed limit ops _ ⟨Remote.rinv_init limit, fun _ => by simp [Remote.init], rfl⟩
 
 end RRun
 
